@@ -207,7 +207,11 @@ def withAdfs (env : Env) (adfdict : List (Str × (List Val → Option Val))) : E
       | some e => some e.2
       | none => env.funs x }
 
-/-- the loop body of `compileADF` (gp.py:527-530) as a step on `(adfdict, func)`; a later
+/-- NOTE (zero-argument ADF sets): the code binds `pset.name` to whatever `compile` returns, which for a set
+without arguments is the VALUE of the tree, so a main tree calling `ADF0()` raises `TypeError` (candidate finding
+`compileADF-zero-arg-adf`).  The model binds the callable `fun [] => value`, i.e. gives the call its denotation.
+
+the loop body of `compileADF` (gp.py:527-530) as a step on `(adfdict, func)`; a later
 `adfdict.update` overrides an earlier entry of the same name, so new entries go in front -/
 def adfStep (state : List (Str × (List Val → Option Val)) × Option (List Val → Option Val))
     (pt : CPset × Tree) : List (Str × (List Val → Option Val)) × Option (List Val → Option Val) :=
@@ -256,7 +260,7 @@ def arith (fi : Int → Int → Int) (ff : Float → Float → Float) (a b : Val
 
 def vlt (a b : Val) : Bool := if isFlt a || isFlt b then toF a < toF b else toI a < toI b
 
-/-- the Python functions the harness registers, by id: `add sub mul neg max2 max3 ite lt and not id` -/
+/-- the Python functions the harness registers, by id: `add sub mul neg max2 max3 ite lt and not id five` -/
 def applyOp (op : String) (args : List Val) : Option Val :=
   match op, args with
   | "add", [a, b] => some (arith (· + ·) (· + ·) a b)
@@ -270,6 +274,7 @@ def applyOp (op : String) (args : List Val) : Option Val :=
   | "and", [a, b] => some (if truthy a then b else a)
   | "not", [a] => some (.bool (!truthy a))
   | "id", [a] => some a
+  | "five", [] => some (.int 5)                       -- a zero-argument primitive (`five()`)
   | _, _ => none
 
 
